@@ -172,15 +172,19 @@ def check_sel(prog: Program, res: Result) -> None:
     m = prog.cls("sleap_nn.architectures.model:Model")
     fwd = m.methods.get("forward")
     res.touch(fwd)
-    loops = [n for n in walk_function(fwd.node) if isinstance(n, ast.For)]
-    ok = len(loops) == 1 and norm(loops[0].iter) == "zip(self.heads, self.head_layers)" and isinstance(loops[0].target, ast.Tuple)
+    rets = [n for n in walk_function(fwd.node) if isinstance(n, ast.Return) and n.value is not None]
+    builds = astq.dict_builds(fwd.node, rets[0].value) if len(rets) == 1 else []
+    gen = builds[0].gen if len(builds) == 1 else None
+    ok = gen is not None and norm(gen.iter) == "zip(self.heads, self.head_layers)" and isinstance(gen.target, ast.Tuple) and len(gen.target.elts) == 2 \
+        and not getattr(gen, "ifs", None)
     res.ob(R, ok, fwd.qualname, "heads paired with their layers", "Model.forward does not iterate zip(self.heads, self.head_layers)", fwd.where)
     if ok:
-        h, hl = [norm(e) for e in loops[0].target.elts]
-        body = loops[0].body
-        outs = [s_ for s_ in body if isinstance(s_, ast.Assign) and isinstance(s_.targets[0], ast.Subscript) and norm(s_.targets[0].value) == "outputs"]
-        ok = len(outs) == 1 and norm(outs[0].targets[0].slice) == f"{h}.name"
-        val = astq.expand_at(fwd.node, outs[0].value, outs[0]) if ok else None
+        h, hl = [norm(e) for e in gen.target.elts]
+        bd = builds[0]
+        site = bd.site if isinstance(bd.site, ast.stmt) else astq_stmt(bd.site)
+        ok = norm(bd.key) == f"{h}.name" and (isinstance(bd.site, ast.DictComp) or bd.site in gen.body)
+        outs = [bd.site]
+        val = astq.expand_at(fwd.node, bd.value, site, keep=[h, hl]) if ok else None
         # head_layer(B['outputs'][B['strides'].index(head.output_stride)]) for the backbone result B
         txt = norm(val).replace('"', "'") if val is not None else ""
         import re
@@ -189,7 +193,7 @@ def check_sel(prog: Program, res: Result) -> None:
         res.ob(R, ok, fwd.qualname, "index looked up by the head's own output stride",
                f"the decoder output is not selected by strides.index({h}.output_stride): `{txt[:90]}`", fwd.where)
         res.ob(R, ok, fwd.qualname, f"outputs[{h}.name] = {hl}(backbone outputs[idx])",
-               f"the head output is computed as `{short(outs[0].value, 60) if outs else '?'}`", fwd.where,
+               f"the head output is computed as `{short(bd.value, 60)}`", fwd.where,
                sample={"apply": txt[:120]})
         if ok:
             bsrc = mm.group(1)
